@@ -2,10 +2,10 @@ package main
 
 import (
 	"context"
-	"database/sql"
 	"encoding/json"
 	"fmt"
 	"math/big"
+	"os"
 	"sort"
 	"strings"
 	"time"
@@ -16,8 +16,6 @@ import (
 	"github.com/formancehq/ledger/verifx/vx"
 	"github.com/formancehq/stack/libs/go-libs/metadata"
 	"github.com/formancehq/stack/libs/go-libs/query"
-	"github.com/uptrace/bun"
-	"github.com/uptrace/bun/dialect/pgdialect"
 )
 
 // ---- interning: order-preserving within each class, so that ORDER BY / GROUP BY / jsonb key order of the text values
@@ -98,11 +96,11 @@ func czBig(n *big.Int) string {
 	}
 	return "CZ " + n.String()
 }
-func cn(n uint64) string       { return fmt.Sprintf("CN %d%%N", n) }
-func cb(b bool) string         { return "CB " + vx.CoqBool(b) }
-func cl(xs ...string) string   { return "CL [" + strings.Join(xs, "; ") + "]" }
-func cls(xs []string) string   { return "CL [" + strings.Join(xs, "; ") + "]" }
-func par(s string) string      { return "(" + s + ")" }
+func cn(n uint64) string     { return fmt.Sprintf("CN %d%%N", n) }
+func cb(b bool) string       { return "CB " + vx.CoqBool(b) }
+func cl(xs ...string) string { return "CL [" + strings.Join(xs, "; ") + "]" }
+func cls(xs []string) string { return "CL [" + strings.Join(xs, "; ") + "]" }
+func par(s string) string    { return "(" + s + ")" }
 
 const cnull = "CNull"
 
@@ -142,10 +140,10 @@ type read struct {
 	Key      string
 	IDs      []string
 	Count    int
-	Value    string              // metadata filter: Key = Value
+	Value    string                 // metadata filter: Key = Value
 	RowVols  []map[string][2]string // volumes of the returned rows (asset -> input, output), nil when null
 	RowEff   []map[string][2]string
-	RowNull  []bool                 // the row's metadata is NULL
+	RowNull  []bool              // the row's metadata is NULL
 	RowMeta  []map[string]string // metadata of the returned rows, in the order of IDs
 }
 
@@ -644,16 +642,24 @@ func runHistory(r *vx.Run, eng *minipg.Engine, h History, origin string) {
 	nm := collectNames(h)
 	db := eng.NewDB()
 	x := &runner{r: r, h: h, nm: nm, db: db, stores: map[string]*ledgerstore.Store{}, ctx: context.Background()}
-	for l := range nm.ledger {
-		bdb := bun.NewDB(sql.OpenDB(minipg.Connector(db)), pgdialect.New(), bun.WithDiscardUnknownColumns())
-		x.stores[l] = ledgerstore.NewStoreForVerif(bdb, "bucket", l)
+	// the driver layer: the ledgers are created on one Driver, written through the stores it hands out ...
+	sysDB := systemEngine.NewDB()
+	d1, err := newDriver(sysDB, db)
+	if err != nil {
+		fmt.Fprintln(os.Stderr, "cannot assemble a driver.Driver over minipg (broken tie):", err)
+		os.Exit(3)
+	}
+	wstores, err := createLedgers(x.ctx, d1, sortedKeys(nm.ledger))
+	if err != nil {
+		r.FailSized("run:driver-layer:create-ledgers", h, err.Error(), len(h.Logs))
+		return
 	}
 	failed := false
 	var accepted []LogIn
 	var used []LogIn
 	for _, e := range h.Logs {
 		used = append(used, e)
-		err := x.stores[e.Ledger].InsertLogs(x.ctx, buildLog(e))
+		err := wstores[e.Ledger].InsertLogs(x.ctx, buildLog(e))
 		if err != nil {
 			if isUniqueViolation(err) {
 				failed = true
@@ -667,6 +673,24 @@ func runHistory(r *vx.Run, eng *minipg.Engine, h History, origin string) {
 	}
 	h.Logs = used
 	x.h = h
+	// ... and read, after a "restart", through the stores a second Driver resolves by name (the real Driver.GetLedgerStore)
+	d2, err := newDriver(sysDB, db)
+	if err != nil {
+		fmt.Fprintln(os.Stderr, "cannot assemble a driver.Driver over minipg (broken tie):", err)
+		os.Exit(3)
+	}
+	for _, l := range sortedKeys(nm.ledger) {
+		st, err := d2.GetLedgerStore(x.ctx, l)
+		if err != nil {
+			r.FailSized("run:driver-layer:GetLedgerStore", h, fmt.Sprintf("GetLedgerStore(%q): %v", l, err), len(h.Logs))
+			return
+		}
+		if st.Name() != l {
+			r.FailSized("isolation:driver:GetLedgerStore-hands-back-the-store-of-another-ledger", h,
+				fmt.Sprintf("after a restart Driver.GetLedgerStore(%q) (bucket %q) returns a store whose queries use ledger = %q", l, sharedBucket, st.Name()), len(h.Logs))
+		}
+		x.stores[l] = st
+	}
 	if !failed {
 		x.observe(accepted)
 	}
